@@ -213,6 +213,34 @@ def rule_patch(ctx: Ctx) -> RuleReport:
             n, d = patch_stores[0]
             rep.fail(Finding("C15-PATCH", fi.module.rel, fi.qual, "stores into foreign modules without restore", f"{fi.qual} replaces attributes of another package ({d}, {len(patch_stores)} stores) and never restores them on some exit: every later extraction in the process runs against the patched library", line=n.lineno))
         unlocked = [(n, d) for n, d in patch_stores if not inside_lock(n)]
+        # one critical section: the patch, the use of the patched library (the yield of the context manager) and the restore
+        # must sit in the same `with lock:` block - two short locked sections around an unlocked use still interleave
+        if temporary and not unlocked:
+            def block_of(node):
+                for w in withs:
+                    if any(x is node for st in w.body for x in ast.walk(st)):
+                        return w
+                return None
+            blocks = {id(block_of(n)) for n, _d in patch_stores}
+            uses = [y for y in walk_own(fi.node) if isinstance(y, (ast.Yield, ast.YieldFrom))]
+            rest = [r for _t, r in restores]
+            split = None
+            if len(blocks) != 1:
+                split = "the patching stores are spread over several locked sections"
+            else:
+                b = next(iter(blocks))
+                # yields that happen while the patch is installed: those after the first store (the early `yield; return` of the unpatched path does not count)
+                first_store = min(n.lineno for n, _d in patch_stores)
+                for y in uses:
+                    if y.lineno > first_store and id(block_of(y)) != b:
+                        split = "the lock is released while the patched library is in use (yield outside the locked section)"
+                for r in rest:
+                    if id(block_of(r)) != b:
+                        split = "the restore runs in a different locked section than the patch"
+            if split:
+                n, d = patch_stores[0]
+                rep.fail(Finding("C15-PATCH", fi.module.rel, fi.qual, f"critical section split: {d}", f"{split}: a second thread can save the already patched function as its 'original' and restore it later, leaving the wrapper installed for good", line=n.lineno))
+                continue
         if temporary:
             if unlocked:
                 n, d = unlocked[0]
